@@ -224,6 +224,12 @@ def run(ck):
                 return out
             if any(x in known_tags for n in docgen.walk(d) if "css-class" in n["attrs"] for x in site(n)):
                 continue
+            if "mj-table[cell]" in known_tags and any(n["tag"] == "mj-table" and "class=" in (n.get("text") or "") for n in docgen.walk(d)):
+                kid = "class-site-not-inlined:mj-table[cell]"
+                if kid not in announced:
+                    announced.add(kid)
+                    ck.known("%s: %s" % (kid, known[kid]["what"]))
+                continue
             failing.append(({"src_with_inline_block": jobs3[2 * i + 1]["src"], "first_differing_token": o_},
                             "generated document: with the inline block the body is not the inlined token stream of the body without it"))
     ck.cov["exhaustive"] = True
